@@ -831,10 +831,25 @@ def main(ck: Check):
     finally:
         shutil.rmtree(proto_dir, ignore_errors=True)
     with ck.locked():
+        ck.regenerate(["effects"])      # Props/C02_Patches.lean: the build path lowered from the source
         proved = ck.prove("Simaple.Props.C02")
         if not quick and proved:
-            ck.leanchecker(["Simaple.Props.C02"])
-        res = ck.driver(reqs, timeout=600)
+            ck.leanchecker(["Simaple.Props.C02", "Simaple.Props.C02_Patches"])
+        res = ck.driver(reqs + [{"fn": "patch_table"}], timeout=600)
+    patch_table = None
+    if res is not None:
+        patch_table = res[-1].get("ok")
+        res = res[:-1]
+        if patch_table is None:
+            ck.broken.append({"kind": "driver", "answer": res[-1] if res else None})
+        else:
+            for name, why in patch_table["notLowered"]:
+                ck.broken.append({"kind": "translator", "generator": "effects", "entry": name, "error": why})
+            for e in patch_table["entries"]:
+                if e["api"] and not e["wellFormed"]:
+                    ck.broken.append({"kind": "proof", "theorem": "Simaple.Props.C02.patchTable_wellFormed", "entry": e["name"],
+                                      "what": "the effect checker rejects the program generated from this entry point: it "
+                                              "may write an object that existed before the call (the shared repository)"})
     disagreements = 0
     raced = 0
     stale = 0
@@ -883,6 +898,9 @@ def main(ck: Check):
         "comparisons_per_context": per_context,
         "orders": [{"label": l, "length": len(o)} for l, o in orders],
         "thread_rounds": [{"kind": r["kind"], "threads": r["threads"], "units": len(r["order"])} for r in th_jobs],
+        "build_path_effect_programs": None if patch_table is None else
+            [{"entry": e["name"], "obligation": e["api"], "accepted_by_the_effect_checker": e["wellFormed"],
+              "recursive": e["recursive"], "statements": e["size"]} for e in patch_table["entries"]],
         "repository_constructions_per_thread_round": constructions,
         "thread_rounds_where_sessions_raced_on_the_empty_global": sum(1 for c in constructions if c > 1),
         "hash_seeds": [ref_seed] + other_seeds,
